@@ -138,7 +138,16 @@ def names_of_module(tree) -> dict:
                      and n.iter.func.id == 'enumerate' and len(n.iter.args) == 1 and isinstance(n.iter.args[0], ast.Attribute)})
         if en:
             enumerated[q] = en
-    return {'consts': sorted(consts), 'funcs': funcs, 'kws': kws, 'class_consts': cconsts, 'attrs': attrs, 'enumerated': enumerated}
+    return {'consts': sorted(consts), 'funcs': funcs, 'kws': kws, 'class_consts': cconsts, 'attrs': attrs, 'enumerated': enumerated,
+            'digests': {q: func_digest(f) for q, f, _ in func_quals(tree)}}
+
+
+def func_digest(f) -> str:
+    """digest of the statements of a function (docstring and annotations aside): tells whether a function was edited at all"""
+    import hashlib
+    body = [st for st in f.body if not (isinstance(st, ast.Expr) and isinstance(st.value, ast.Constant) and isinstance(st.value.value, str))]
+    text = ','.join(a.arg for a in f.args.posonlyargs + f.args.args + f.args.kwonlyargs) + '|' + '\n'.join(ast.dump(st) for st in body)
+    return hashlib.sha1(text.encode()).hexdigest()[:12]
 
 
 def keyword_uses(func) -> set:
@@ -337,6 +346,54 @@ def _branch_gen_candidate(f) -> bool:
         return False
     stmts_with_yield = [n for n in ast.walk(f) if isinstance(n, ast.Expr) and isinstance(n.value, ast.Yield)]
     return len(stmts_with_yield) == len(ys)
+
+
+def _nest_return_guards(f) -> bool:
+    """`if C: return V` ... `return V` (same V, last statement of the function)  ->  `if not C: ...` ; `return V`"""
+    body = f.body
+    if len(body) < 3 or not isinstance(body[-1], ast.Return):
+        return False
+    final = ast.dump(body[-1].value) if body[-1].value is not None else None
+    changed = False
+
+    def nest(stmts):
+        nonlocal changed
+        for i, st in enumerate(stmts):
+            if isinstance(st, ast.If) and not st.orelse and len(st.body) == 1 and isinstance(st.body[0], ast.Return) and i + 1 < len(stmts):
+                v = st.body[0].value
+                if (ast.dump(v) if v is not None else None) == final:
+                    rest = nest(stmts[i + 1:])
+                    changed = True
+                    return stmts[:i] + [ast.copy_location(ast.If(test=_negate(st.test), body=rest, orelse=[]), st)]
+        return stmts
+
+    new = nest(body[:-1])
+    if changed:
+        f.body = new + [body[-1]]
+    return changed
+
+
+def _fold_int_arith(tree):
+    """after constants were propagated: integer arithmetic on literals (`0 + 1`, `-1 - 1`) is written as the literal it denotes"""
+    def ival(e):
+        if isinstance(e, ast.Constant) and type(e.value) is int:
+            return e.value
+        if isinstance(e, ast.UnaryOp) and isinstance(e.op, ast.USub) and isinstance(e.operand, ast.Constant) and type(e.operand.value) is int:
+            return -e.operand.value
+        return None
+
+    class F(ast.NodeTransformer):
+        def visit_BinOp(self, node):
+            self.generic_visit(node)
+            a, b = ival(node.left), ival(node.right)
+            if a is None or b is None or not isinstance(node.op, (ast.Add, ast.Sub, ast.Mult)):
+                return node
+            v = a + b if isinstance(node.op, ast.Add) else a - b if isinstance(node.op, ast.Sub) else a * b
+            new = ast.Constant(value=abs(v))
+            if v < 0:
+                new = ast.UnaryOp(op=ast.USub(), operand=new)
+            return ast.copy_location(new, node)
+    F().visit(tree)
 
 
 class _Bail(Exception):
@@ -661,7 +718,16 @@ class Normaliser:
     def run(self):
         if not self.base:
             return self.log
+        self.edited = set()
+        for path in sorted(self.modules):
+            ref = self.base.get(path, {}).get('digests')
+            if ref is None:
+                continue
+            for q, f, _ in func_quals(self.modules[path].tree):
+                if q in ref and ref[q] != func_digest(f):
+                    self.edited.add((path, q))
         self._collect()
+        self._inline_new_properties()
         for path in sorted(self.modules):
             self._constants(path)
         self._class_constants()
@@ -680,15 +746,89 @@ class Normaliser:
                 if q in basekw:
                     self._keywords(path, q, f, cls, set(basekw[q]))
         for path in sorted(self.modules):
+            if 'reduce' in self.modules[path].text:
+                for q, f, cls in list(func_quals(self.modules[path].tree)):
+                    for _ in range(20):
+                        if not self._fold_reduce_once(path, q, f):
+                            break
+        for path in sorted(self.modules):
+            for q, f, cls in list(func_quals(self.modules[path].tree)):
+                if (path, q) in self.edited and _nest_return_guards(f):
+                    self.log.append(f'N9 {path}::{q}: guard clause(s) `if C: return V` ahead of the final `return V` nested as `if not C: ...`')
+        for path in sorted(self.modules):
             tree = self.modules[path].tree
             base = self.base.get(path, {}).get('funcs', {})
             for q, f, cls in list(func_quals(tree)):
                 known = set(base.get(q, ())) if q in base else None
                 self._forward(path, q, f, known)
+        # v[...] op= e  on an array view v (itself a slice expression) is  v op= e
+        for path in sorted(self.modules):
+            for q, f, cls in list(func_quals(self.modules[path].tree)):
+                if (path, q) in self.edited:
+                    for n in ast.walk(f):
+                        if isinstance(n, ast.AugAssign) and isinstance(n.target, ast.Subscript) and isinstance(n.target.slice, ast.Constant) and n.target.slice.value is Ellipsis \
+                                and isinstance(n.target.value, ast.Subscript):
+                            inner = n.target.value
+                            inner.ctx = ast.Store()
+                            n.target = inner
+                            self.log.append(f'N9 {path}::{q}: in-place update through [...] of a slice written as an update of the slice')
         self._drop_unused()
+        if any(l.startswith('N1') for l in self.log):
+            for m in self.modules.values():
+                _fold_int_arith(m.tree)
         for m in self.modules.values():
             ast.fix_missing_locations(m.tree)
         return self.log
+
+    def _inline_new_properties(self):
+        """N2: a new read-only @property whose getter is a single `return <pure expression of self>` is that expression at every
+        `self.<name>` read inside its own class"""
+        known_attrs = set()
+        for m in self.base.values():
+            known_attrs |= set(m.get('attrs', ()))
+        for path in sorted(self.modules):
+            bm = self.base.get(path)
+            if bm is None or 'attrs' not in bm:
+                continue
+            for cnode in self.modules[path].tree.body:
+                if not isinstance(cnode, ast.ClassDef):
+                    continue
+                props = {}
+                for st in cnode.body:
+                    if isinstance(st, ast.FunctionDef) and _decorators(st) == {'property'} and st.name not in known_attrs and f'{cnode.name}.{st.name}' not in bm['funcs']:
+                        body = [x for x in st.body if not (isinstance(x, ast.Expr) and isinstance(x.value, ast.Constant))]
+                        a = st.args
+                        if len(body) == 1 and isinstance(body[0], ast.Return) and body[0].value is not None and is_pure(body[0].value) \
+                                and len(a.args) == 1 and not (a.vararg or a.kwarg or a.kwonlyargs) \
+                                and not any(isinstance(n, ast.Attribute) and n.attr == st.name for n in ast.walk(body[0].value)):
+                            props[st.name] = (a.args[0].arg, body[0].value)
+                # a setter / deleter or any store to the name keeps it a real attribute
+                for n in ast.walk(self.modules[path].tree):
+                    if isinstance(n, ast.Attribute) and n.attr in props and isinstance(n.ctx, (ast.Store, ast.Del)):
+                        props.pop(n.attr, None)
+                    if isinstance(n, ast.FunctionDef) and any(isinstance(d, ast.Attribute) and isinstance(d.value, ast.Name) and d.value.id in props for d in n.decorator_list):
+                        props.pop(n.name, None)
+                if not props:
+                    continue
+                for st in cnode.body:
+                    if not isinstance(st, ast.FunctionDef) or not st.args.args or st.name in props:
+                        continue
+                    me = st.args.args[0].arg
+                    if any(isinstance(n, ast.Name) and n.id == me and isinstance(n.ctx, ast.Store) for n in ast.walk(st)):
+                        continue
+                    hit = []
+
+                    class T(ast.NodeTransformer):
+                        def visit_Attribute(self, node):
+                            self.generic_visit(node)
+                            if isinstance(node.ctx, ast.Load) and node.attr in props and isinstance(node.value, ast.Name) and node.value.id == me:
+                                sname, expr = props[node.attr]
+                                hit.append(node.attr)
+                                return ast.copy_location(_Rename({}, {sname: ast.Name(id=me, ctx=ast.Load())}).visit(copy.deepcopy(expr)), node)
+                            return node
+                    T().visit(st)
+                    if hit:
+                        self.log.append(f'N2 {path}::{cnode.name}.{st.name}: new read-only property {sorted(set(hit))} replaced by its expression')
 
     def _collect(self):
         self._effects = None
@@ -741,17 +881,19 @@ class Normaliser:
             if not self._inlinable_def(f, cls):
                 continue
             dec = _decorators(f)
-            kind = 'function' if cls is None else ('static' if 'staticmethod' in dec else 'method')
+            kind = 'function' if cls is None else ('static' if 'staticmethod' in dec else 'class' if 'classmethod' in dec else 'method')
             self.helpers[name] = Helper(path, cls, f, q, kind)
 
     @staticmethod
     def _inlinable_def(f, cls) -> bool:
         if f.name.startswith('__') and f.name.endswith('__'):
             return False
-        if _decorators(f) - {'staticmethod'}:
+        if _decorators(f) - {'staticmethod', 'classmethod'} or len(_decorators(f)) > 1:
             return False
         a = f.args
-        if a.vararg or a.kwarg:
+        if a.kwarg or (a.vararg and (a.defaults or a.kwonlyargs)):
+            return False
+        if a.vararg and any(isinstance(n, ast.Name) and n.id == a.vararg.arg and isinstance(n.ctx, (ast.Store, ast.Del)) for n in ast.walk(f)):
             return False
         simple_gen = False
         b_ = [x for x in f.body if not (isinstance(x, ast.Expr) and isinstance(x.value, ast.Constant))]
@@ -795,6 +937,13 @@ class Normaliser:
                 nm = node.targets[0].id
                 if nm not in known and counts.get(nm) == 1 and (is_const_expr(node.value) or self._record_table(tree, node.value)):
                     consts[nm] = node.value
+            elif isinstance(node, ast.Assign) and len(node.targets) == 1 and isinstance(node.targets[0], ast.Tuple) and isinstance(node.value, ast.Tuple) \
+                    and len(node.targets[0].elts) == len(node.value.elts) and all(isinstance(t, ast.Name) for t in node.targets[0].elts):
+                # A, B = 1, 2 : literal right-hand sides are independent of each other
+                if all(isinstance(v, ast.Constant) for v in node.value.elts):
+                    for t, v in zip(node.targets[0].elts, node.value.elts):
+                        if t.id not in known and counts.get(t.id) == 1:
+                            consts[t.id] = v
         # constants defined from earlier new constants
         changed = True
         while changed:
@@ -1094,6 +1243,12 @@ class Normaliser:
             if h.kind == 'static':
                 self._prepare(h)
                 return h, None
+            if h.kind == 'class':
+                # a classmethod called on the class that defines it: its first parameter is that class
+                if isinstance(f.value, ast.Name) and f.value.id == h.cls:
+                    self._prepare(h)
+                    return h, f.value
+                return None
             if isinstance(f.value, ast.Name) and f.value.id == h.cls:
                 return None         # Class.method(obj, ...) form: leave
             self._prepare(h)
@@ -1114,7 +1269,14 @@ class Normaliser:
         defaults = dict(zip(reversed(params), reversed(a.defaults))) if a.defaults else {}
         bound = {}
         if len(call.args) > len(params):
-            return None
+            if not a.vararg or a.defaults or any(isinstance(x, ast.Starred) for x in call.args):
+                return None
+            # def f(a, b, *rest) called with explicit extra positionals: rest is the tuple of them
+            bound[a.vararg.arg] = ast.copy_location(ast.Tuple(elts=list(call.args[len(params):]), ctx=ast.Load()), call)
+        elif a.vararg:
+            if any(isinstance(x, ast.Starred) for x in call.args):
+                return None
+            bound[a.vararg.arg] = ast.copy_location(ast.Tuple(elts=[], ctx=ast.Load()), call)
         for p, v in zip(params, call.args):
             bound[p] = v
         kwonly = [x.arg for x in a.kwonlyargs]
@@ -1196,11 +1358,11 @@ class Normaliser:
                 expr = norm._single_return_expr(helper.func)
                 if expr is None:
                     return node
-                bound = norm._bind(node, helper.func, helper.kind == 'method')
+                bound = norm._bind(node, helper.func, helper.kind in ('method', 'class'))
                 if bound is None:
                     return node
                 subst = dict(bound)
-                if helper.kind == 'method':
+                if helper.kind in ('method', 'class'):
                     subst[helper.func.args.args[0].arg] = receiver
                 inner = _nested_bound_names([ast.Expr(value=expr)])
                 argnames = set()
@@ -1241,7 +1403,7 @@ class Normaliser:
         func = helper.func
         if not generator and any(isinstance(n, (ast.Yield, ast.YieldFrom)) for n in walk_scope(func)):
             return None         # a generator is not a sequence of statements of its caller (see _fuse_generator)
-        bound = self._bind(call, func, helper.kind == 'method')
+        bound = self._bind(call, func, helper.kind in ('method', 'class'))
         if bound is None:
             return None
         body = list(func.body)
@@ -1270,7 +1432,7 @@ class Normaliser:
         attr_stores = {n.attr for s in body for n in ast.walk(s) if isinstance(n, ast.Attribute) and isinstance(n.ctx, (ast.Store, ast.Del))}
         nested = _nested_bound_names(body)
         params = list(bound)
-        selfname = func.args.args[0].arg if helper.kind == 'method' else None
+        selfname = func.args.args[0].arg if helper.kind in ('method', 'class') else None
         subst, temps = {}, []
         ren = {}
         if selfname:
@@ -1741,6 +1903,8 @@ class Normaliser:
         self._cur = (cls, ldefs, a[0].arg if (cls and a) else 'self')
         params = {x.arg for x in a + func.args.kwonlyargs}
         before = len(self.log)
+        self._cur_path = path
+        self._rename_apart(path, qual, func, known | params)
         for _round in range(6):
             n0 = len(self.log)
             self._fold_new_locals(path, qual, func, known | params)
@@ -1753,7 +1917,8 @@ class Normaliser:
                 self._function(path, qual, func, cls)
             for _ in range(80):
                 if not (self._forward_once(path, qual, func, known) or self._views_once(path, qual, func, known | params) or self._coalesce_once(path, qual, func, known | params)
-                        or self._coalesce_copy_in(path, qual, func, known | params) or self._alias_to_field(path, qual, func, known | params)):
+                        or self._coalesce_copy_in(path, qual, func, known | params) or self._alias_to_field(path, qual, func, known | params)
+                        or self._fold_reduce_once(path, qual, func)):
                     break
             if len(self.log) == n0:
                 break
@@ -2146,6 +2311,31 @@ class Normaliser:
             return False
         if isinstance(it, (ast.Tuple, ast.List)) and it.elts and all(atomic(e) for e in it.elts) and not any(isinstance(e, ast.Starred) for e in it.elts):
             return list(it.elts)
+        # a record built on the spot iterates over its field values in field order
+        if isinstance(it, ast.Call) and isinstance(it.func, ast.Name) and it.func.id in (getattr(self, 'ntypes', None) or {}) \
+                and not any(isinstance(a, ast.Starred) for a in it.args) and all(k.arg for k in it.keywords):
+            flds = self.ntypes[it.func.id]
+            vals = dict(zip(flds, it.args))
+            for k in it.keywords:
+                if k.arg in vals or k.arg not in flds:
+                    return None
+                vals[k.arg] = k.value
+            if len(vals) == len(flds) and all(atomic(vals[f_]) for f_ in flds):
+                return [vals[f_] for f_ in flds]
+            return None
+        # a new module-level dictionary literal that nothing modifies is a table of (key, value) rows in insertion order
+        dn, view = None, 'keys'
+        if isinstance(it, ast.Name):
+            dn = it.id
+        elif isinstance(it, ast.Call) and not it.args and not it.keywords and isinstance(it.func, ast.Attribute) and isinstance(it.func.value, ast.Name) \
+                and it.func.attr in ('items', 'keys', 'values'):
+            dn, view = it.func.value.id, it.func.attr
+        if dn is not None and dn not in bound_in_body:
+            d = self._dict_table(dn)
+            if d is not None and all(atomic(v) for v in d.values):
+                if view == 'items':
+                    return [ast.Tuple(elts=[copy.deepcopy(k), copy.deepcopy(v)], ctx=ast.Load()) for k, v in zip(d.keys, d.values)]
+                return [copy.deepcopy(x) for x in (d.keys if view == 'keys' else d.values)]
         if isinstance(it, ast.Call) and isinstance(it.func, ast.Name) and it.func.id == 'zip' and it.args and not it.keywords:
             cols = []
             for a in it.args:
@@ -2155,6 +2345,55 @@ class Normaliser:
             n = min(len(c) for c in cols)
             return [ast.Tuple(elts=[c[i] for c in cols], ctx=ast.Load()) for i in range(n)]
         return None
+
+    def _iterates_new_dict_table(self, it) -> bool:
+        if isinstance(it, ast.Name):
+            return self._dict_table(it.id) is not None
+        if isinstance(it, ast.Call) and not it.args and not it.keywords and isinstance(it.func, ast.Attribute) and isinstance(it.func.value, ast.Name) \
+                and it.func.attr in ('items', 'keys', 'values'):
+            return self._dict_table(it.func.value.id) is not None
+        return False
+
+    def _dict_table(self, name):
+        """the Dict literal bound once at module level to the new name `name` (of the module being processed) when nothing in the
+        module can modify it; None otherwise"""
+        path = getattr(self, '_cur_path', None)
+        if path is None or path not in self.modules:
+            return None
+        cache = self.__dict__.setdefault('_dict_tables', {})
+        if (path, name) in cache:
+            return cache[(path, name)]
+        tree = self.modules[path].tree
+        res = None
+        bm = self.base.get(path)
+        if bm is not None and name not in set(bm['consts']):
+            binds = [st for st in tree.body if isinstance(st, (ast.Assign, ast.AnnAssign)) and st.value is not None
+                     and any(isinstance(t, ast.Name) and t.id == name for t in (st.targets if isinstance(st, ast.Assign) else [st.target]))]
+            stores = sum(1 for n in ast.walk(tree) if isinstance(n, ast.Name) and n.id == name and isinstance(n.ctx, (ast.Store, ast.Del)))
+            mutated = any((isinstance(n, ast.Attribute) and isinstance(n.value, ast.Name) and n.value.id == name and n.attr in ('update', 'pop', 'popitem', 'clear', 'setdefault', '__setitem__', '__delitem__'))
+                          or (isinstance(n, ast.Subscript) and isinstance(n.value, ast.Name) and n.value.id == name and isinstance(n.ctx, (ast.Store, ast.Del)))
+                          or (isinstance(n, (ast.Global, ast.Nonlocal)) and name in n.names)
+                          or (isinstance(n, ast.AugAssign) and isinstance(n.target, ast.Name) and n.target.id == name) for n in ast.walk(tree))
+            # the dictionary escapes when it is passed or stored somewhere else: only iteration, subscript reads, `in`, len() and .get/.items/.keys/.values are allowed
+            parents = {}
+            for n in ast.walk(tree):
+                for c in ast.iter_child_nodes(n):
+                    parents[id(c)] = n
+            escapes = False
+            for n in ast.walk(tree):
+                if isinstance(n, ast.Name) and n.id == name and isinstance(n.ctx, ast.Load):
+                    par = parents.get(id(n))
+                    okuse = (isinstance(par, ast.Attribute) and par.attr in ('items', 'keys', 'values', 'get')) or (isinstance(par, ast.Subscript) and par.value is n) \
+                        or (isinstance(par, (ast.For, ast.comprehension)) and par.iter is n) or (isinstance(par, ast.Compare) and n in par.comparators) \
+                        or (isinstance(par, ast.Call) and isinstance(par.func, ast.Name) and par.func.id in ('len', 'list', 'tuple', 'sorted') and n in par.args) \
+                        or (isinstance(par, ast.Call) and isinstance(par.func, ast.Attribute) and par.func.attr == 'join')
+                    if not okuse:
+                        escapes = True
+            if len(binds) == 1 and stores == 1 and not mutated and not escapes and isinstance(binds[0].value, ast.Dict) and binds[0].value.keys \
+                    and all(isinstance(k, ast.Constant) for k in binds[0].value.keys):
+                res = binds[0].value
+        cache[(path, name)] = res
+        return res
 
     @staticmethod
     def _bind_target(target, elem):
@@ -2186,7 +2425,8 @@ class Normaliser:
                         setattr(st, name, rec(b))
                 later = {n.id for s2 in stmts[i + 1:] for n in ast.walk(s2) if isinstance(n, ast.Name)}
                 # (1) for T in <literal table>: ...   with new target names
-                if isinstance(st, ast.For) and tnames(st.target) and not (tnames(st.target) & known) and not (tnames(st.target) & later):
+                if isinstance(st, ast.For) and tnames(st.target) and not (tnames(st.target) & later) and \
+                        (not (tnames(st.target) & known) or norm._iterates_new_dict_table(st.iter)):
                     body_nodes = [n for b_ in st.body for n in ast.walk(b_)]
                     bound = {n.id for n in body_nodes if isinstance(n, ast.Name) and isinstance(n.ctx, (ast.Store, ast.Del))}
                     for n in body_nodes:            # names written into through a subscript / attribute / augmented assignment count as changed
@@ -2355,7 +2595,7 @@ class Normaliser:
                 if len(node.generators) == 1 and not node.generators[0].ifs and not node.generators[0].is_async:
                     gen = node.generators[0]
                     tn = tnames(gen.target)
-                    if tn and not (tn & known) and isinstance(gen.iter, (ast.Tuple, ast.List)):
+                    if tn and not (tn & known) and (isinstance(gen.iter, (ast.Tuple, ast.List)) or norm._iterates_new_dict_table(gen.iter)):
                         elems = norm._table_elements(gen.iter, tn)
                         if elems is not None and len(elems) <= 16 and all(isinstance(n, (ast.Constant, ast.Tuple, ast.List, ast.UnaryOp, ast.USub, ast.Load)) for e in elems for n in ast.walk(e)) \
                                 and not any(isinstance(n, (ast.Lambda,) + COMPS) for n in ast.walk(node.elt)):
@@ -2369,13 +2609,31 @@ class Normaliser:
                 self.generic_visit(node)
                 return self._flat(node)
 
+            def _unpack_comp(self, node):
+                # a, b, c = (E(x) for x in TABLE)  ->  a, b, c = (E(e1), E(e2), E(e3)) : the generator is consumed on the spot
+                v = node.value
+                if len(node.targets) == 1 and isinstance(node.targets[0], ast.Tuple) and isinstance(v, (ast.GeneratorExp, ast.ListComp)) and len(v.generators) == 1 \
+                        and not v.generators[0].ifs and not v.generators[0].is_async and not any(isinstance(t, ast.Starred) for t in node.targets[0].elts):
+                    gen = v.generators[0]
+                    tn = tnames(gen.target)
+                    if tn and not (tn & known):
+                        elems = norm._table_elements(gen.iter, tn)
+                        if elems is not None and len(elems) == len(node.targets[0].elts) and all(is_pure(e) for e in elems) \
+                                and not any(isinstance(n, (ast.Lambda,) + COMPS) for n in ast.walk(v.elt)):
+                            binds = [norm._bind_target(gen.target, e) for e in elems]
+                            if all(b is not None for b in binds):
+                                norm.log.append(f'N7 {path}::{qual}: unpacking of a comprehension over a table of {len(elems)} rows written out')
+                                node.value = ast.copy_location(ast.Tuple(elts=[_Rename({}, b).visit(copy.deepcopy(v.elt)) for b in binds], ctx=ast.Load()), v)
+                                node.value._kv_new = True
+                return node
+
             def visit_DictComp(self, node):
                 self.generic_visit(node)
                 # {K(x): V(x) for x in (c1, c2, ..)} over a literal table of atoms, x new  ->  {K(c1): V(c1), ..}
                 if len(node.generators) == 1 and not node.generators[0].ifs and not node.generators[0].is_async:
                     gen = node.generators[0]
                     tn = tnames(gen.target)
-                    if tn and not (tn & known) and isinstance(gen.iter, (ast.Tuple, ast.List)):
+                    if tn and not (tn & known) and (isinstance(gen.iter, (ast.Tuple, ast.List)) or norm._iterates_new_dict_table(gen.iter)):
                         elems = norm._table_elements(gen.iter, tn)
                         if elems is not None and len(elems) <= 16 and all(isinstance(n, (ast.Constant, ast.Tuple, ast.List, ast.UnaryOp, ast.USub, ast.Load)) for e in elems for n in ast.walk(e)) \
                                 and not any(isinstance(n, (ast.Lambda,) + COMPS) for x in (node.key, node.value) for n in ast.walk(x)):
@@ -2412,6 +2670,7 @@ class Normaliser:
 
             def visit_Assign(self, node):
                 self.generic_visit(node)
+                node = self._unpack_comp(node)
                 # a, b = [x, y]  ->  a, b = (x, y): the list is consumed by the unpacking
                 if len(node.targets) == 1 and isinstance(node.targets[0], ast.Tuple) and isinstance(node.value, ast.List) \
                         and len(node.value.elts) == len(node.targets[0].elts) and not any(isinstance(e, ast.Starred) for e in node.value.elts):
@@ -2721,6 +2980,79 @@ class Normaliser:
                 return True
         return False
 
+    def _fold_reduce_once(self, path, qual, func) -> bool:
+        """reduce(operator.mul, (a, b), init) -> init * a * b   (left fold over a literal tuple; same for operator.add)"""
+        ops = {'mul': ast.Mult, 'add': ast.Add}
+        for n in ast.walk(func):
+            if isinstance(n, ast.Call) and not n.keywords and len(n.args) == 3 and (getattr(n.func, 'id', None) == 'reduce' or getattr(n.func, 'attr', None) == 'reduce'):
+                f, seq, init = n.args
+                opn = f.attr if isinstance(f, ast.Attribute) and isinstance(f.value, ast.Name) and f.value.id == 'operator' else None
+                if opn in ops and isinstance(seq, (ast.Tuple, ast.List)) and not any(isinstance(e, ast.Starred) for e in seq.elts):
+                    acc = init
+                    for e in seq.elts:
+                        acc = ast.copy_location(ast.BinOp(left=acc, op=ops[opn](), right=e), n)
+                    class R(ast.NodeTransformer):
+                        def visit_Call(self, node):
+                            if node is n:
+                                return acc
+                            return self.generic_visit(node)
+                    R().visit(func)
+                    self.log.append(f'N4 {path}::{qual}: reduce(operator.{opn}, <{len(seq.elts)} literal operands>, init) written out')
+                    return True
+        return False
+
+    def _rename_apart(self, path, qual, func, known):
+        """a new local bound by plain assignments in several blocks, every read of which follows (inside the same block) exactly one
+        of the bindings, is several variables sharing a name: each binding gets its own name (then it is bound once)"""
+        binds: dict[str, list] = {}
+        other_store = set()
+        for blk in self._blocks(func):
+            for i, s in enumerate(blk):
+                if isinstance(s, ast.Assign) and len(s.targets) == 1 and isinstance(s.targets[0], ast.Name):
+                    binds.setdefault(s.targets[0].id, []).append((blk, i, s))
+        for n in ast.walk(func):
+            if isinstance(n, ast.Name) and isinstance(n.ctx, (ast.Store, ast.Del)):
+                pass
+            elif isinstance(n, ast.AugAssign) and isinstance(n.target, ast.Name):
+                other_store.add(n.target.id)
+            elif isinstance(n, (ast.Global, ast.Nonlocal)):
+                other_store |= set(n.names)
+            elif isinstance(n, (ast.Lambda, ast.FunctionDef, ast.ListComp, ast.GeneratorExp, ast.DictComp, ast.SetComp)) and n is not func:
+                # names used inside deferred / nested scopes keep their single name
+                other_store |= {m.id for m in ast.walk(n) if isinstance(m, ast.Name)}
+        for v, bl in binds.items():
+            if v in known or len(bl) < 2 or v in other_store:
+                continue
+            n_store = sum(1 for n in ast.walk(func) if isinstance(n, ast.Name) and n.id == v and isinstance(n.ctx, (ast.Store, ast.Del)))
+            if n_store != len(bl):
+                continue            # also a loop target / with target / tuple target
+            loads = [n for n in ast.walk(func) if isinstance(n, ast.Name) and n.id == v and isinstance(n.ctx, ast.Load)]
+            region = {}
+            ok = True
+            for k, (blk, i, s) in enumerate(bl):
+                if any(isinstance(n, ast.Name) and n.id == v for n in ast.walk(s.value)):
+                    ok = False
+                    break
+                for st in blk[i + 1:]:
+                    # the region of this binding ends where the name is bound again
+                    if any(isinstance(n, ast.Name) and n.id == v and isinstance(n.ctx, ast.Store) for n in ast.walk(st)):
+                        ok = False
+                        break
+                    for n in ast.walk(st):
+                        if isinstance(n, ast.Name) and n.id == v and isinstance(n.ctx, ast.Load):
+                            if id(n) in region:
+                                ok = False
+                            region[id(n)] = k
+                if not ok:
+                    break
+            if not ok or any(id(n) not in region for n in loads):
+                continue
+            for k, (blk, i, s) in enumerate(bl):
+                s.targets[0].id = f'{v}__b{k}'
+            for n in loads:
+                n.id = f'{v}__b{region[id(n)]}'
+            self.log.append(f'N4 {path}::{qual}: new local {v} bound in {len(bl)} separate blocks renamed apart')
+
     def _forward_once(self, path, qual, func, known):
         params = {x.arg for x in func.args.posonlyargs + func.args.args + func.args.kwonlyargs}
         bind_count: dict[str, int] = {}
@@ -3019,8 +3351,7 @@ def apply(modules: dict) -> list:
     from .desugar import desugar_tree
     log0 = []
     for path, mod in modules.items():
-        if 'match ' in mod.text or ':=' in mod.text or 'partial' in mod.text:
-            desugar_tree(mod.tree, path, log0)
+        desugar_tree(mod.tree, path, log0)
     base = load_baseline()
     if not base:
         return log0
